@@ -54,6 +54,12 @@ inductive Io
   | iw                      -- Serial.in_waiting
   | rd (n : Nat)            -- Serial.read(n)
   | rs                      -- Serial.reset_input_buffer()
+  | gh                      -- socket.gethostbyname(host)   (UDP open)
+  | cn                      -- socket.connect(address)      (TCP open)
+  | bd                      -- socket.bind(("", port))      (UDP open)
+  | sa (n : Nat)            -- socket.sendall(data), len(data) = n
+  | sd (n : Nat)            -- socket.sendto(data, address), len(data) = n
+  | wr (n : Nat)            -- Serial.write(data), len(data) = n
   deriving DecidableEq, Repr
 
 /-- ghost tag of a delivered segment -/
@@ -68,6 +74,7 @@ inductive Exc
   | runtime       -- QMI_RuntimeException (UDP datagram larger than the receive size)
   | valueError    -- socket.settimeout(negative)
   | assertion     -- `assert nbuf == nbytes`
+  | osError       -- an OSError (sub)class raised by the OS / pyserial while opening, passed through unchanged
   | exhausted     -- the oracle script ran out (the real call would block; harness: ScriptExhausted)
   deriving DecidableEq, Repr
 
@@ -75,6 +82,12 @@ inductive Out
   | ret (bs : Bytes)
   | unit
   | exc (e : Exc)
+  deriving DecidableEq, Repr
+
+/-- what the next `open()` will meet (oracle): success, a connect time-out, a failure before the
+device object exists (`gethostbyname` / `serial.Serial(...)` raising), a failure after it exists
+(`connect` refused / `bind` failing) -/
+inductive OpenRes | ok | timeout | early | late
   deriving DecidableEq, Repr
 
 structure St where
@@ -87,6 +100,8 @@ structure St where
   dev    : Script := []             -- what the device will still deliver
   io     : List Io := []            -- device interactions so far
   log    : List (Tag × Bytes) := [] -- ghost: delivered / discarded / lost segments in stream order
+  openPlan : List OpenRes := []     -- outcomes of the coming `open()` attempts (empty = success)
+  wlog   : List Bytes := []         -- what `write` handed to the device, one entry per call, in order
   deriving Repr
 
 def init (k : Kind) (minP maxP : Nat) : St := { kind := k, minP := minP, maxP := maxP }
@@ -404,17 +419,49 @@ inductive Op
   | readUntilTimeout (n : Nat) (t : Option Int)
   | discardRead
   | feed (evs : Script)        -- the device sends more (environment action)
+  | write (d : Bytes)
+  | planOpen (r : OpenRes)     -- the environment decides how the next unplanned `open()` will go
   deriving Repr
 
-/-- `QMI_Transport.open` + `_open_transport` -/
+/-- `QMI_Transport.open` + `_open_transport` of the three classes.  `_is_open` is set only after
+`_open_transport` returned; every failure leaves the flag `False`.
+* TCP: buffer reset, `socket()`, `connect`; `socket.timeout` → socket closed, `QMI_TimeoutException`; any
+  other `OSError` passes through and the socket object is left as it is (not closed).
+* UDP: buffer reset, `gethostbyname` (may raise before any socket exists), `socket()`, `bind` (an `OSError`
+  passes through, socket not closed).
+* serial: `serial.Serial(...)` (a `SerialException` passes through, nothing created); buffer kept. -/
 def doOpen (s : St) : St × Out :=
   if s.isOpen then (s, .exc .invalidOp)
-  else if s.kind = .serial then
-    ({ s with isOpen := true, io := s.io ++ [Io.mk] }, .unit)
   else
-    -- `_open_transport` of the socket family resets the read buffer
-    ({ s with isOpen := true, buf := [], io := s.io ++ [Io.mk],
-              log := s.log ++ [(Tag.disc, s.buf)] }, .unit)
+    let r := s.openPlan.headD .ok
+    let s0 := { s with openPlan := s.openPlan.tail }
+    match s.kind with
+    | .serial =>
+      match r with
+      | .ok => ({ s0 with isOpen := true, io := s0.io ++ [Io.mk] }, .unit)
+      | _ => (s0, .exc .osError)
+    | .tcp =>
+      let s1 := { s0 with buf := [], log := s0.log ++ [(Tag.disc, s0.buf)], io := s0.io ++ [Io.mk, Io.cn] }
+      match r with
+      | .ok => ({ s1 with isOpen := true }, .unit)
+      | .timeout => ({ s1 with io := s1.io ++ [Io.cl] }, .exc .timeout)
+      | _ => (s1, .exc .osError)
+    | .udp =>
+      let s1 := { s0 with buf := [], log := s0.log ++ [(Tag.disc, s0.buf)], io := s0.io ++ [Io.gh] }
+      match r with
+      | .early => (s1, .exc .osError)
+      | .ok => ({ s1 with isOpen := true, io := s1.io ++ [Io.mk, Io.bd] }, .unit)
+      | _ => ({ s1 with io := s1.io ++ [Io.mk, Io.bd] }, .exc .osError)
+
+/-- `write(data)` of the three classes: refused when closed, otherwise the whole `data` goes to the
+device in one call (`sendall` / one datagram / `Serial.write`) -/
+def doWrite (s : St) (d : Bytes) : St × Out :=
+  if !s.isOpen then (s, .exc .invalidOp)
+  else
+    match s.kind with
+    | .serial => ({ s with io := s.io ++ [Io.wr d.length], wlog := s.wlog ++ [d] }, .unit)
+    | .tcp => ({ s with io := s.io ++ [Io.st none, Io.sa d.length], wlog := s.wlog ++ [d] }, .unit)
+    | .udp => ({ s with io := s.io ++ [Io.st none, Io.sd d.length], wlog := s.wlog ++ [d] }, .unit)
 
 /-- `close` -/
 def doClose (s : St) : St × Out :=
@@ -429,6 +476,8 @@ def step (s : St) : Op → St × Out
   | .readUntilTimeout n t => if s.kind = .serial then serialRut s n t else sockRut s n t
   | .discardRead => if s.kind = .serial then serialDiscard s else sockDiscard s
   | .feed evs => ({ s with dev := s.dev ++ evs }, .unit)
+  | .write d => doWrite s d
+  | .planOpen r => ({ s with openPlan := s.openPlan ++ [r] }, .unit)
 
 def run (s : St) : List Op → St × List Out
   | [] => (s, [])
